@@ -64,6 +64,8 @@ class Gen9(progen.Gen):
         self.shadows = {}         # function name -> set of global names it rebinds locally
         self.cur = None           # name of the function being generated
         self.calls = {}           # function name -> set of callee names
+        self.shared_ctx = None    # (text, safe) of a context several functions of the chain declare
+        self.n_shared = 0
 
     # -- globals ---------------------------------------------------------------
     def make_globals(self):
@@ -217,6 +219,50 @@ class Gen9(progen.Gen):
         w = 0.30 if self.lift_bias else 0.08
         if depth > 0 and self.p.with_blocks and ch.bool(w):
             k = ch.weighted([(3, 'def'), (5, 'use'), (3, 'upd'), (3, 'loopvar'), (2, 'asname'), (2, 'ctxassign'), (4, 'variant-loop')])
+            if k in ('def', 'asname') and ch.bool(0.6):
+                k = 'same-text'
+            if k == 'same-text':
+                # two (or three) `with` headers with IDENTICAL constructor text whose local argument is rebound to a
+                # different constant in between; every site is statically evaluable, each to a different context
+                n = fn.fresh('n')
+                rm = ch.choice(self.p.rm_pool)
+                form = ch.int(0, 2)
+                if form == 0:
+                    text, vals = f'fp.MPFixedContext({n}, fp.RM.{rm})', [-1, -2, -3, -5, -8]
+                elif form == 1:
+                    text, vals = f'fp.MPFloatContext({n}, fp.RM.{rm})', [2, 3, 4, 6, 9]
+                else:
+                    text, vals = f'fp.MPFixedContext({n})', [-2, -3, -6, -9]
+                k_sites = ch.int(2, 3)
+                consts = []
+                while len(consts) < k_sites:
+                    c = ch.choice(vals)
+                    if not consts or c != consts[-1]:
+                        consts.append(c)
+                vs = [v for v in self.vars_of(fn, 'R') if v not in fn.protected]
+                src_v = ch.choice(self.vars_of(fn, 'R')) if self.vars_of(fn, 'R') else self.lit()
+                in_for = depth > 1 and ch.bool(0.5)
+                for j, c in enumerate(consts):
+                    out.append(f'{ind}{n} = {c}')
+                    tgt = ch.choice(vs) if (vs and ch.bool(0.7)) else fn.fresh('v')
+                    body = ch.choice([f'{tgt} = fp.round({src_v} / 3)', f'{tgt} = {src_v} / 7 + {self.expr_R(fn, 0)}', f'{tgt} = fp.round({src_v})'])
+                    if in_for and j == len(consts) - 1:
+                        i = fn.fresh('i')
+                        out.append(f'{ind}for {i} in range({ch.int(1, 3)}):')
+                        out.append(f'{ind}    with {text}:')
+                        out.append(f'{ind}        {body}')
+                        if tgt not in fn.env:
+                            continue        # bound only inside the loop: not visible afterwards
+                    else:
+                        out.append(f'{ind}with {text}:')
+                        out.append(f'{ind}    {body}')
+                        fn.env[tgt] = 'R'
+                        if tgt not in vs:
+                            vs.append(tgt)
+                fn.env[n] = 'R'
+                fn.protected.add(n)
+                self.features.update({'same-ctor-text-rebound', 'ctor-reads-local', 'ctxarg-redefined', 'with'})
+                return False
             if k == 'variant-loop' and depth > 1:
                 # the whole pattern in one piece: a constructor whose argument changes on every iteration (must stay in
                 # the loop), feeding a variable that later code is likely to read
@@ -387,7 +433,13 @@ class Gen9(progen.Gen):
             if t == 'L':
                 minlen[pn] = ch.int(0 if is_main else 1, 3)
         own_ctx = None
-        if not is_main and ch.bool(0.5):
+        if self.shared_ctx is not None and ch.bool(0.75 if is_main else 0.6):
+            # the SAME declared context on several functions of the chain (caller and callee declare equivalent contexts)
+            own_ctx, safe = self.shared_ctx
+            self.n_shared += 1
+            if self.n_shared >= 2:
+                self.features.add('same-declared-ctx-on-chain')
+        elif not is_main and ch.bool(0.5):
             own_ctx, safe = self.ctx_text(None, allow_computed=False)
         elif is_main and ch.bool(0.15):
             own_ctx, safe = self.ctx_text(None, allow_computed=False)
@@ -446,6 +498,10 @@ class Gen9(progen.Gen):
         if self.gl:
             self.lines.append('')
         nh = self.ch.int(*n_helpers)
+        if nh and self.ch.bool(0.35):
+            # counter-safe contexts only: `main` may run `while` loops under it
+            self.shared_ctx = (self.ch.choice(['fp.FP64', 'fp.FP32', 'fp.MPFloatContext(5, fp.RM.RTZ)', 'fp.IEEEContext(5, 16, fp.RM.RNE)',
+                                               'fp.MPFixedContext(-5, fp.RM.RNA)', 'fp.FP64', 'fp.MPFloatContext(8, fp.RM.RTN)']), True)
         for i in range(nh):
             self.helpers.append(self.function9(f'h{i}', False))
         m = self.function9('main', True)
@@ -576,8 +632,13 @@ def site_info(func):
                 for a_ in e.args:
                     _C()._visit_expr(a_, None)
                 args_write = any(isinstance(c.fn, Function) and callee_facts(c.fn, memo)['t_writes'] for c in inner)
+                try:
+                    same_ctx = (func.ast.ctx is not None and e.fn.ast.ctx is not None and hasattr(e.fn.ast.ctx, 'is_equiv')
+                                and e.fn.ast.ctx.is_equiv(func.ast.ctx))
+                except Exception:
+                    same_ctx = False
                 infos[id(e)] = {
-                    'args_write': args_write,
+                    'args_write': args_write, 'same_ctx_as_caller': bool(same_ctx),
                     'callee': e.fn.name, 'with': st['with'], 'loop': st['loop'] > 0, 'comp': st['comp'] > 0,
                     'cond_eval': st['cond_eval'] > 0, 'while_cond': st['while_cond'] > 0, 'if_cond': st['if_cond'] > 0,
                     'ctx_expr': st['ctx_expr'] > 0,
